@@ -1,6 +1,7 @@
 // C12 — no received byte stream causes out-of-bounds access, a crash or a stuck receiver.
 #include "common.h"
 #include "cfggen.h"
+#include "apiops.h"
 
 namespace {
 
@@ -113,6 +114,12 @@ struct C12 : Prop {
 						case 3: bytes.resize(pos); inj = "truncated"; break;
 						case 4: bytes.insert(bytes.begin() + (long) pos, 0xFE); inj = "stray-delimiter"; break;
 					}
+				} else if (normal && x >= 42 && x < 52 && !w.boards.empty()) {
+					// a well-formed message for existing equipment with unusual but legal field values (error flags, aspects the configuration
+					// does not name, empty / repeated address lists ...): out-of-range field values in otherwise perfectly valid traffic
+					J ev1 = api::uplink_event(r, w, 0);
+					ref::Msg m; m.addr = j_bytes(ev1["node"]); m.seq = r.chance(500) ? 0 : r.byte(); m.type = (uint8_t) ev1.geti("type"); m.data = j_bytes(ev1["data"]);
+					bytes = ref::frame_msgs({m}); adv = true; inj = "valid-message-unusual-field-values";
 				} else if (x < 42) {
 					// oversized CRC-valid frame
 					std::vector<uint8_t> p;
